@@ -2,9 +2,9 @@
 
 Deductive, character by character (every code point, symbolically): endpoints.quoteStringArgument puts a backslash in
 front of each of the three characters the description tokenizer gives a meaning to (backslash, ':' and '=') and leaves
-every other character alone.  The tokenizer reads `backslash x` as the character x for every x, so this table is what
-makes the round trip hold; the tokenizer itself (a generator) and the parsers on top of it are exercised in the bounded
-tier.
+every other character alone; and endpoints._tokenize, run on the quoted form of any character behind four prefixes
+(positional, keyword, after a value), reads it back as exactly that character with the prefix's tokens untouched.  The
+parsers on top of the tokenizer and longer texts are exercised in the bounded tier.
 Bounded (contracts/parts/C46_bounded.py): _parse, serverFromString / clientFromString with the quoted text in every slot.
 """
 from pyvc.api import *
@@ -105,16 +105,17 @@ class TokenizeQuotedChar(Contract):
 CONTRACTS = [QuoteChar, TokenizeQuotedChar]
 BOUNDED = bounded("C46")
 _SCOPE = ('endpoints._parse and serverFromString/clientFromString on a MemoryReactor with the quoted text in every positional / keyword slot: exhaustive texts up to 5 characters over {: = backslash a e-acute} plus seeded random longer texts')
-NOTES = dict(explanation="quoteStringArgument proved character by character; tokenizer and parsers bounded: " + _SCOPE,
+NOTES = dict(explanation="quoteStringArgument and the tokenizer proved character by character; parsers and longer texts bounded: " + _SCOPE,
              not_covered=["_parse and the endpoint parsers on top of the tokenizer, descriptions with more than one quoted character, the composition over whole "
                           "strings: bounded tier only"])
 MANIFEST = dict(
     category="proof",
     text="For every character, quoteStringArgument returns the character itself, or `backslash` + the character for the "
          "backslash, ':' and '=' -- the three characters the tokenizer interprets; str.replace with a one-character pattern is "
-         "characterwise, and the backslash is handled first, so no escape is escaped again.  That _tokenize / _parse read the "
-         "quoted text back as exactly the original argument in every positional and keyword slot is exercised in the bounded "
-         "tier only: " + _SCOPE + ".",
+         "characterwise, and the backslash is handled first, so no escape is escaped again.  _tokenize, run on the quoted form "
+         "of any character behind the prefixes '', 'a:', 'a:k=' and 'a:k=v:', yields the prefix's tokens followed by one string "
+         "token that is exactly that character.  That _parse and the endpoint parsers read longer quoted texts back as the "
+         "original argument in every positional and keyword slot is exercised in the bounded tier only: " + _SCOPE + ".",
     note="Trusted: pyvc, SMT solvers, characterwise replace.  Everything else: bounded, never counted as proved.",
     technique="contract-based deductive verification (complete symbolic case analysis per character, SMT sequences) + bounded exhaustive texts in every slot",
 )
